@@ -29,6 +29,8 @@ def sh(cmd, timeout=600, cwd=None, env=None, inp=None):
 class BuildInfo:
     def __init__(self):
         self.translator_ok = False
+        self.translator2_ok = False
+        self.gen_failed = set()
         self.translator_msg = ''
         self.make_rc = None
         self.make_log = ''
@@ -82,6 +84,13 @@ def build(quiet=True) -> BuildInfo:
         rc, out, err = sh([PY, os.path.join(VERIF, 'harness', 'py2coq.py'), REPO, os.path.join(COQ, 'Gen')], timeout=60)
         info.translator_ok = rc == 0
         info.translator_msg = (out + err).strip()
+        info.gen_failed = set() if rc == 0 else {'Gen/TieredTime.v', 'Gen/UpdateMin.v'}
+        # second translator: scenario.connect_interval -> Gen/ConnectInterval.v (tie: Static/ConnTie.v)
+        rc2, out2, err2 = sh([PY, os.path.join(VERIF, 'harness', 'py2coq_conn.py'), REPO, os.path.join(COQ, 'Gen')], timeout=60)
+        info.translator2_ok = rc2 == 0
+        if rc2 != 0:
+            info.gen_failed.add('Gen/ConnectInterval.v')
+            info.translator_msg += '\n' + (out2 + err2).strip()
         if not os.path.exists(os.path.join(COQ, 'Makefile')) or \
                 os.path.getmtime(os.path.join(COQ, 'Makefile')) < os.path.getmtime(os.path.join(COQ, '_CoqProject')):
             sh('coq_makefile -f _CoqProject -o Makefile', cwd=COQ, timeout=60)
@@ -172,8 +181,7 @@ def check_props_file(pid, info: BuildInfo):
     Returns (obligations:[{name, ok, assumptions}], log)."""
     rel = f'Props/{pid}'
     names = theorem_names(rel)
-    needs_gen = any(d.startswith('Gen/') for d in info._deps.get(rel + '.v', set()))
-    translator_ok = info.translator_ok or not needs_gen
+    translator_ok = not (info.gen_failed & set(info._deps.get(rel + '.v', set())))
     rc, out, err = sh(f'timeout 600 coqc -Q . MV -w -notation-overridden {rel}.v', cwd=COQ, timeout=700)
     ok = rc == 0 and translator_ok
     # split Print Assumptions output per theorem (in file order of the Print commands)
@@ -189,7 +197,7 @@ def check_props_file(pid, info: BuildInfo):
     broken = []
     if not ok:
         broken = [f for f in info.failed_files if f in info._deps.get(rel + '.v', set()) or f == rel + '.v']
-        if not translator_ok: broken.insert(0, 'harness/py2coq.py (translator rejected the source)')
+        if not translator_ok: broken.insert(0, 'harness/py2coq*.py (translator rejected the source)')
     return obl, log, broken
 
 
@@ -291,7 +299,7 @@ class Outcome:
 
 COMMON_TRUSTED = [
     'Coq 8.16.1 kernel (coqc); vm_compute only inside witness lemmas; no native_compute',
-    'harness/py2coq.py (Python-ast -> Coq translator, fail-closed) and coq/Prelude/Py.v (meaning given to Python tuples, slices, zip, total_ordering)',
+    'harness/py2coq.py and harness/py2coq_conn.py (Python-ast -> Coq translators, fail-closed) and coq/Prelude/Py.v, coq/Prelude/PyG.v (meaning given to Python tuples, slices, zip, total_ordering, list item assignment; SimGroup objects as ids of a group table)',
     'extraction: ExtrOcamlBasic only (Extract Inductive bool, option, unit, list, prod, sumbool, sumor; Extract Inlined Constant andb, orb); Z/nat/positive extracted as Coq datatypes; OCaml 4.13.1; ocaml/util.ml + ocaml/driver.ml (I/O glue)',
     'the correspondence harness (harness/*.py) and CPython 3.12 asyncio',
 ]
